@@ -184,6 +184,27 @@ def run(eng, rep, tier):
         ob.decide("R4", "C11.4", f, "fresh-converter:" + label, bool(convs),
                   "a new converter is created in every call", "%s.intersection reuses a converter across calls" % label, s,
                   site=site_of(prog, f, f.node))
+    # premise of the closed-world names above ("Start" cannot be captured): every other variable of the result is made by
+    # the converter from its integer counter - never from user-supplied values
+    VAR_Q = prog.cls("pyformlang.cfg.variable.Variable").qname if "pyformlang.cfg.variable.Variable" in prog.classes else None
+    made = [ev for ev, _ in summ.walk() if ev.kind == "new" and ev.callee == VAR_Q and ev.func.cls is not None
+            and ev.func.cls.name == "CFGVariableConverter"]
+    if not made:
+        rep.error("R5", "C11.R5", fi.qname, "combined-variable-is-counter",
+                  "no Variable construction by the CFGVariableConverter was found in the closure of CFG.intersection")
+    else:
+        bad = [ev for ev in made if not ev.args or ev.args[0].types is None or not ev.args[0].types <= {"int", "bool"}]
+        unknown = [ev for ev in bad if not ev.args or ev.args[0].types is None]
+        if unknown and len(unknown) == len(bad):
+            rep.error("R5", "C11.R5", fi.qname, "combined-variable-is-counter",
+                      "the value naming a combined variable has an unknown type", site=unknown[0].site.to_json())
+        else:
+            ob.decide("R5", "C11.R5", made[0].func, "combined-variable-is-counter", not bad,
+                      "combined variables are named by the converter's integer counter (%d construction sites)" % len(made),
+                      "a combined variable is named from %s instead of the converter's counter: names built from user "
+                      "values are not injective over (state, symbol, state) and can capture `Start`"
+                      % (sorted(bad[0].args[0].types) if bad and bad[0].args and bad[0].args[0].types else "?"), summ,
+                      site=(bad[0].site.to_json() if bad else made[0].site.to_json()))
     names.check(eng, rep, "C11")
     rep.stats.update(eng.stats())
     rep.floor = 18
